@@ -411,6 +411,10 @@ impl Property for C03 {
                         Ok(g) => g,
                         Err(_) => return Ok(None),
                     };
+                    if prefix_dot_components(&g) > 0 {
+                        // never follow `..` (however it is spelled) out of the scratch directory
+                        return Ok(None);
+                    }
                     let plain = collect(g.walk_with_behavior(base_given.clone(), beh), cap);
                     let negated = run_not(g.walk_with_behavior(base_given.clone(), beh), &case.neg, cap)?;
                     Ok(Some((plain, negated, format!("Glob(`{}`)::walk", text))))
